@@ -1,8 +1,8 @@
 (* C07 correspondence: case type, model run (as sx observation), executable statement spec_ok.
 
-   A store case = backend, external shape, internal shape, shape_mask, operation list (elements are ints);
+   A store case = backend, external shape, internal shape, shape_mask, operation list (elements: ints, None, strings);
    its observation = the list of canonical outputs of the operations:
-     array / scalar / masked  ->  [shape; flat cells]   cell: int | [] (= masked) | none (= a Python None)
+     array / scalar / masked  ->  [shape; flat cells]   cell: int | str | none (= a Python None) | [] (= masked)
      mask_linear              ->  list of bools,   has_index -> bool,   dump / persist -> none,   exception -> err class
    The other kinds are the table comparisons of the Python-semantics definitions (Base/PySlice.v, Base/Index.v) with
    CPython / NumPy ("pre_checks"): they carry no statement of the property (spec_ok = true), a disagreement shows as a
@@ -11,8 +11,15 @@ From Verif Require Export Base.Prelude Base.Index Base.PySlice Model.Store.
 
 Inductive backend := BFile | BDict | BShm.
 
+(* the elements stored by the cases: ints (incl. the falsy 0), the Python value None (a stored None is a value, it is
+   NOT a masked / missing element), strings (incl. the falsy "").  In an observation a stored None and the None of a
+   never-assigned np.empty cell look the same (both are Python's None); the reference never shows the latter. *)
+Inductive elem := EI (z : Z) | EN | ES (x : str).
+Coercion EI : Z >-> elem.
+Definition sx_elem (e : elem) : sx := match e with EI z => SI z | EN => SNone | ES x => SS x end.
+
 Inductive case :=
-| CStore (b : backend) (ext int : list nat) (mask : list bool) (ops : list (op Z))
+| CStore (b : backend) (ext int : list nat) (mask : list bool) (ops : list (op elem))
 | CSliceTab (a b c : option Z)        (* [list(range( *slice(a,b,c).indices(n))) for n in 0..5] *)
 | CNormTab (n : nat)                  (* normalisation of the ints -7..7 on an axis of size n *)
 | CCart (ls : list (list nat))        (* itertools.product *)
@@ -24,8 +31,8 @@ Definition Ks := KSlice.
 
 Definition sx_nats (l : list nat) : sx := SL (map SN l).
 Definition sx_masked : sx := SL [].
-Definition sx_cell (c : cell Z) : sx := match c with Val z => SI z | Masked => sx_masked | Uninit => SNone end.
-Definition sx_out (o : out Z) : sx :=
+Definition sx_cell (c : cell elem) : sx := match c with Val e => sx_elem e | Masked => sx_masked | Uninit => SNone end.
+Definition sx_out (o : out elem) : sx :=
   match o with
   | OArr sh cells => SL [sx_nats sh; SL (map sx_cell cells)]
   | OMask sh missing => SL [sx_nats sh; SL (map (fun b : bool => if b then sx_masked else SB false) missing)]
@@ -37,10 +44,10 @@ Definition sx_out (o : out Z) : sx :=
 
 Definition mk_geom (ext int : list nat) (mask : list bool) : geom := {| g_ext := ext; g_int := int; g_mask := mask |}.
 
-Definition run_store (b : backend) (g : geom) (ops : list (op Z)) : list (out Z) :=
+Definition run_store (b : backend) (g : geom) (ops : list (op elem)) : list (out elem) :=
   match b with
-  | BFile => run_ops Z (stepF Z g) [] ops
-  | BDict | BShm => run_ops Z (stepD Z g) [] ops
+  | BFile => run_ops elem (stepF elem g) [] ops
+  | BDict | BShm => run_ops elem (stepD elem g) [] ops
   end.
 
 Definition sx_res_nats (r : result (list nat)) : sx := sx_of_result sx_nats r.
@@ -59,10 +66,10 @@ Definition run (c : case) : sx :=
    Reference = the masked n-d array MaskedNd, started all-masked.  For every operation of a case in the scope of the
    property (geometry consistent, values of the internal shape, linear indices < size) the canonical output must be
    the reference's output; get_from_index of a missing element must raise (class not fixed by the property). *)
-Definition ref_outs (g : geom) (ops : list (op Z)) : list (out Z) :=
-  run_ops Z (stepM Z OtherError g) (absent Z g) ops.
+Definition ref_outs (g : geom) (ops : list (op elem)) : list (out elem) :=
+  run_ops elem (stepM elem OtherError g) (absent elem g) ops.
 
-Definition out_ok (expected : out Z) (o : sx) : bool :=
+Definition out_ok (expected : out elem) (o : sx) : bool :=
   match expected with
   | OErr OtherError => sx_is_err o
   | _ => sx_eqb (sx_out expected) o
@@ -79,7 +86,7 @@ Definition spec_ok (c : case) (o : sx) : bool :=
   match c with
   | CStore b ext int mask ops =>
       let g := mk_geom ext int mask in
-      if negb (geom_ok g && forallb (valid_op Z g) ops) then true
+      if negb (geom_ok g && forallb (valid_op elem g) ops) then true
       else match o with
            | SL outs => forallb2 out_ok (ref_outs g ops) outs
            | _ => false
